@@ -82,6 +82,8 @@ BOUNDS = {
     'thorough': 'binary blocks: 254^2 exponent pairs x 4 signs x |M|^2 (adder |M|=8, others |M|=11) + close pairs on '
                 'all 254 exponents; conversions as quick',
 }
+for k in ('quick', 'thorough'):
+    BOUNDS[k] += '; also every block added to a system that was already simulated (bit-flip / power-of-two / full FPtoInt alphabets)'
 
 
 # ------------------------------------------------------------------ shards
